@@ -84,8 +84,54 @@ def load():
     return out
 
 
+# Quick tier of a property = its PRIMARY quick harnesses (first id in `props=`) plus the quick harnesses of other properties
+# listed here that decide a mechanism this property also depends on. The thorough tier runs every harness tagged with the
+# property. (Keeps each quick check within a few minutes; nothing is lost in the thorough tier.)
+SHARE = [
+    (r"^c07_settings$", ["C16"]),
+    (r"^c04_close_(pendingack|highpubrel)$", ["C06", "C15"]),
+    (r"^c15_close_current_k[123]_", ["C04"]),
+    (r"^c15_close_current_k0_preserveall_q2$", ["C10"]),
+    (r"^c15_session_absent_", ["C04", "C06"]),
+    (r"^c08_mirror_pub_(user|resubmit)_p2s0$", ["C09", "C10"]),
+    (r"^c08_mirror_pub_high_p0s0$", ["C07", "C10"]),
+    (r"^c10_priority_resubmit_user_p2s0$", ["C09", "C08"]),
+    (r"^c09_written_disconnect$", ["C07"]),
+    (r"^c09_written_publish_p0s0$", ["C18"]),
+    (r"^c06_bind$", ["C04"]),
+    (r"^c06_alloc$", ["C11"]),
+    (r"^c05_session_clears_inbound_set$", ["C06"]),
+    (r"^c02_publish5_alias_", ["C17"]),
+    (r"^c02_publish311$", ["C17"]),
+    (r"^c02_connect5_credentials$", ["C07"]),
+    (r"^c02_connect311_full$", ["C07"]),
+    (r"^c02_pingreq$", ["C14"]),
+    (r"^c02_pub(ack|rec|comp)5_success$", ["C05"]),
+    (r"^c03_(frame_rl_k3_r0|chunking_3|vli|error_absorbing|frame_body_r2_s1_n2)$", ["C11"]),
+    (r"^c11_guard_(publish|puback)$", ["C07"]),
+    (r"^c14_ping_step$", ["C11"]),
+    (r"^c18_deadline$", ["C11"]),
+    (r"^c19_step_(nojitter|uniform)$", ["C11"]),
+    (r"^c08_timers_r2_user$", ["C18", "C14"]),
+    (r"^c01_ack_(pubrec_fail_q2|pubcomp_q2_released|pubcomp_q2_early)$", ["C04"]),
+    (r"^c18_ack_timeouts_fire$", ["C08"]),
+    (r"^c15_submit_publish_q0$", ["C10"]),
+    (r"^c16_static_publish_props$", ["C04"]),
+    (r"^c15_close_queued_w2s_preserveacknowledged_q0$", ["C10"]),
+    (r"^c18_close_retry_limit_l2c2$", ["C15"]),
+]
+
+
+def shared_with(name):
+    out = []
+    for rx, props in SHARE:
+        if re.match(rx, name):
+            out += props
+    return out
+
+
 def for_property(prop, tier):
-    hs = [h for h in load() if prop in h.props]
+    hs = [h for h in load() if prop in h.props or prop in shared_with(h.name)]
     if tier == "quick":
-        hs = [h for h in hs if h.tier == "quick"]
+        hs = [h for h in hs if h.tier == "quick" and (h.props[0] == prop or prop in shared_with(h.name))]
     return hs
